@@ -1,0 +1,74 @@
+//go:build verif
+
+// Contracts for package lttb, read by /verif/govc. Comment-only file.
+// Floating point is treated as real arithmetic here (pragma floats real): IEEE rounding of
+// float64(i+1)*size could move a bucket boundary by one; the code tolerates that, the proof does not
+// model it (listed as an assumption).
+package lttb
+
+// ---------------------------------------------------------------------------------- C17
+
+// Iter type contract: it yields the points px/py(it, 0..ilen-1) in order; icur(it) is its cursor.
+//@ ghostfield icur int
+//@ spec func ilen(it ref) int
+//@ spec func px(it ref, k int) real
+//@ spec func py(it ref, k int) real
+//@ stub lttb.Iter(count int) (pts []Point, err error)
+//@   requires [iterator-non-nil] self != nil
+//@   requires [non-negative-request] count >= 0
+//@   requires [cursor-in-range] 0 <= icur(self) && icur(self) <= ilen(self)
+//@   modifies ghost(icur, self)
+//@   ensures err == nil ==> len(pts) == min(count, ilen(self) - old(icur(self))) && icur(self) == old(icur(self)) + len(pts) && (len(pts) > 0 ==> fresh(pts))
+//@   ensures err == nil ==> (forall k int :: 0 <= k && k < len(pts) ==> pts[k].X == px(self, old(icur(self)) + k) && pts[k].Y == py(self, old(icur(self)) + k))
+//@   ensures err != nil ==> icur(self) == old(icur(self))
+
+//@ func sample
+//@   property C17
+//@   requires [current-bucket-non-empty] len(current) >= 1
+//@   modifies nothing
+//@   ghost j int
+//@   at store index: ghost j = arg0
+//@   ensures [picks-a-point-of-the-current-bucket] 0 <= j && j < len(current) && b.X == current[j].X && b.Y == current[j].Y
+//@   loop 1
+//@     invariant -1 <= rangeindex && rangeindex < len(next) && j == 0
+//@     decreases len(next) - rangeindex
+//@   loop 2
+//@     invariant -1 <= rangeindex && rangeindex < len(current) && j == index && 0 <= index && index < len(current)
+//@     decreases len(current) - rangeindex
+
+// six(k): source index of the k-th output point.
+//@ ghostfield six int
+//@ func Downsample
+//@   property C17
+//@   pragma floats real
+//@   returns (out, err)
+//@   requires [iterator-at-start] it != nil && icur(it) == 0 && ilen(it) == count && count >= 0
+//@   assume   [fewer-than-2^61-points] count <= 2305843009213693952
+//@   modifies nothing
+//@   ghost preCur int
+//@   ghost curStart int
+//@   before call it: ghost preCur = icur(it)
+//@   at store current: ghost curStart = (len(samples) == 1 ? 1 : preCur)
+//@   at call sample: ghost six(len(samples)) = curStart + callee_j
+//@   ensures [unchanged-at-or-below-threshold] (threshold >= count || threshold == 0) && err == nil ==> len(out) == count &&
+//@              (forall k int :: 0 <= k && k < count ==> out[k].X == px(it, k) && out[k].Y == py(it, k))
+//@   ensures [threshold-one-or-two-rejected] threshold < 3 && threshold != 0 && threshold < count ==> err != nil
+//@   ensures [exactly-threshold-points] 3 <= threshold && threshold < count && err == nil ==> len(out) == threshold
+//@   ensures [first-point-kept] 3 <= threshold && threshold < count && err == nil ==> out[0].X == px(it, 0) && out[0].Y == py(it, 0)
+//@   ensures [last-point-kept] 3 <= threshold && threshold < count && err == nil ==> out[threshold-1].X == px(it, count-1) && out[threshold-1].Y == py(it, count-1)
+//@   ensures [subsequence] 3 <= threshold && threshold < count && err == nil ==>
+//@              (forall k int :: 1 <= k && k <= threshold-2 ==> 1 <= six(k) && six(k) < count - 1 && (k >= 2 ==> six(k-1) < six(k)) && out[k].X == px(it, six(k)) && out[k].Y == py(it, six(k)))
+//@   loop 1
+//@     invariant 3 <= threshold && threshold < count && 0 <= i && i <= threshold - 2 && it == old(it) && count == old(count) && threshold == old(threshold)
+//@     invariant size * real(threshold - 2) == real(count - 2)
+//@     invariant len(samples) == i + 1 && cap(samples) >= threshold && fresh(samples)
+//@     invariant samples[0].X == px(it, 0) && samples[0].Y == py(it, 0)
+//@     invariant i < threshold - 2 ==> icur(it) == f2i(real(i + 1) * size, "int") + 1
+//@     invariant i == threshold - 2 ==> icur(it) == count
+//@     invariant len(current) >= 1 && curStart >= 1 && curStart + len(current) == icur(it) && curStart + len(current) <= count
+//@     invariant forall k int :: 0 <= k && k < len(current) ==> current[k].X == px(it, curStart + k) && current[k].Y == py(it, curStart + k)
+//@     invariant i == threshold - 2 ==> curStart + len(current) == count
+//@     invariant forall k int :: 1 <= k && k <= i ==> 1 <= six(k) && six(k) < curStart && six(k) < count - 1
+//@     invariant forall k int :: 2 <= k && k <= i ==> six(k-1) < six(k)
+//@     invariant forall k int :: 1 <= k && k <= i ==> samples[k].X == px(it, six(k)) && samples[k].Y == py(it, six(k))
+//@     decreases threshold - 2 - i
